@@ -628,10 +628,62 @@ def finish(ctx, level_note_extra=""):
     return 0
 
 
+def run_c17(ctx):
+    """Configuration space enumerated completely by TLC; every configuration built for real."""
+    r = V.model_check(ctx.wd, "builder_mc", "MC_Builder.tla", {"Emit": False}, ["Ok"], workers=4, timeout=600)
+    ctx.mc.append({k: r[k] for k in ("name", "distinct", "generated", "ok", "wall_s", "timeout")})
+    ctx.states += r["distinct"]
+    ctx.transitions += r["generated"]
+    if not r["ok"]:
+        ctx.model_failures.append(("builder_mc", r["violated"] or r["error"], r["out"]))
+    cfg = os.path.join(ctx.wd, "builder_emit.cfg")
+    V.write_cfg(cfg, constants={"Emit": True})
+    rc, outp, wall = V.run_tlc(ctx.wd, "MC_Builder.tla", cfg, workers=1, timeout=600, out="builder_emit.out")
+    beh = os.path.join(ctx.wd, "builder.beh.ndjson")
+    n = parse_edges(outp, beh)
+    trace = os.path.join(ctx.wd, "builder.trace.ndjson")
+    hr = V.harness(["build", beh, trace])
+    if hr.returncode != 0:
+        with open(trace, "a") as f:
+            f.write(json.dumps({"ev": "Crash", "rc": hr.returncode}) + "\n")
+        summ = {"events": 0, "mismatches": -1}
+    else:
+        summ = json.loads(hr.stdout.strip().splitlines()[-1])
+    log("[replay] %-24s %6d configurations built, %d events, mismatching=%s" % ("builder", n, summ["events"], summ["mismatches"]))
+    st, viol, drift = generic_trace_check(ctx, "TraceBuilder.tla", "builder", trace, {})
+    ctx.replayed += n
+    ctx.events += st["events"]
+    ctx.nontrivial += st["nt"]
+    ctx.conform += st["conform"]
+    bad = {b for (_, b, _) in viol}
+    ctx.traces_ok += st["behaviours"] - len(bad)
+    lines = None
+    for (p, bid, line) in viol:
+        if lines is None:
+            lines = V.read_lines(trace)
+        i = line - 1
+        start = i
+        while start > 0 and lines[start].get("ev") != "Build":
+            start -= 1
+        evs = lines[start:i + 1]
+        path = V.write_replay("C17", {"kind": "builder", "build": evs[0]}, [], evs, len(evs) - 1, "builder enumeration")
+        ctx.violation(path, "configuration %d: event %s rejected" % (bid, evs[-1].get("ev")))
+    for (bid, line) in drift[:10]:
+        ctx.drift.append({"source": "builder", "behaviour": bid, "line": line})
+    with open(beh) as f:
+        ls = f.readlines()
+    for j in (0, len(ls) // 2, len(ls) - 1):
+        ctx.samples.append({"kind": "configuration built for real", "cfg": json.loads(ls[j])["cfg"]})
+    ctx.mc_exhaustive_note = "the configuration space of C17 is enumerated completely"
+
+
 def run_property(prop, tier, seed):
     V.build_harness()
     ctx = Ctx(prop, tier, seed)
     V.prepare_dir(ctx.wd)
+    if prop == "C17":
+        run_c17(ctx)
+        return finish(ctx)
     if os.path.isdir(V.REPLAYS):
         for f in os.listdir(V.REPLAYS):
             if f.startswith(prop + "-"):
